@@ -3,7 +3,9 @@ Scenario:  <time ms> <n> <arg>*n <nopts> <opt>*      (args as byte strings incl.
            "this vector spells these documented options", judged only when the claim is true)
   opt ::= :h :v :vv :c :p :b :lg :ln :ll :ri :f :e :ci | :r ~|<digits> | :s ~|<digits> | :g <k> <v> | :n <k> <v>
         | :t <k> <g> <n> | :T <ignored 0|1> <g> <n> | :o <0 normal|1 eclipse|2 junit|3 teamcity> | :k <v>      k: 0 -x 1 -sx 2 -xx 3 -xsx
-Observation: :rej <help> <tests run> <printed> | :ok <flags..> <seed> <repeat> <out> <pkg> <group filters> <name filters> <selection of 14 probes>"""
+Observation: :rej <help> <tests run> <printed> | :ok <flags..> <seed> <repeat> <out> <pkg> <group filters> <name filters> <selection of 14 probes> <applied>
+  <applied> ::= :skip (repeat count > 6) | :app <outputs created: kind pkg level colour> <listing text> <repetitions: level colour seeds started ran sep>
+  = what recording outputs and 18 recording probe tests see of the real CommandLineTestRunner run on the same vector (harness/C12.cpp)"""
 from vlib import tb
 ID = "C12"
 FLAVOURS = ["asan"]
@@ -14,7 +16,12 @@ RULE = ("(a) meaning: sequences of 0-8 documented options (single-option vectors
         "values from an identifier pool that interacts with the probe registry and includes prefixes of option names, numbers, "
         "option-like texts and the shapes the compound forms exclude; time source 0 / 2^32 / random; -h at random positions.  (b) safety: arbitrary byte strings 0-40 bytes, every "
         "dispatch literal truncated at every length and extended with junk, value options as last argument, TEST(/IGNORE_TEST( forms "
-        "with missing comma/bracket/space, -t values with 0-3 dots, numeric edge values for -r/-s, ac 0-12.  "
+        "with missing comma/bracket/space, -t values with 0-3 dots, numeric edge values for -r/-s, ac 0-12.  (c) applying: 1-10 documented "
+        "options drawn with multiplicity from the ones the runner acts on (-v -vv -c -b -ri -p -lg -ln -ll, -r with 1..7 / none, -s with and "
+        "without seed, -o kinds, -k, filters over the 18 runner probes incl. the 4 ignored ones), shuffled order, with forced combinations: "
+        "-v and -vv both present (each 1-3 times, any order), -b with a repeat count >= 2, list mode with -r/-b/-s/-v, -ri with filters that "
+        "select ignored probes, -p with -r, junit with/without verbosity and -k; every accepted vector with repeat count <= 6 is run through "
+        "the real runner.  "
         "non-trivial = at least one argument after argv[0]")
 ASSUMPTIONS = ["arguments are C strings (no NUL inside)",
                "no argument starts (after blanks and a sign, also counted from its third character) with more than 9 digits: AtoI's int would overflow (atoi's contract); the same bound is put on the digits AtoU reads, so its wrap-around is not exercised",
@@ -34,7 +41,9 @@ IDENTS = [b"grp", b"name", b"ame", b"gr", b"Group", b"Test", b"a", b"b", b"ab", 
           # shapes some forms exclude (then only safety / well-formedness is judged): separators of the compound forms, empty
           b"a.b", b"x,y", b"q)", b"gr.", b",", b")", b"",
           # self-overlapping patterns against the probes aaab / xababac / Looop / TestTestTests (a match inside a failed partial match)
-          b"aab", b"abac", b"oop", b"TestTests", b"aaab", b"ab", b"oo", b"Looop", b"bab"]
+          b"aab", b"abac", b"oop", b"TestTests", b"aaab", b"ab", b"oo", b"Looop", b"bab",
+          # the ignored probes of the runner registry
+          b"ign", b"ig", b"z", b"TestIgn"]
 LITERALS = ["-h", "-v", "-vv", "-c", "-p", "-b", "-lg", "-ln", "-ll", "-ri", "-f", "-e", "-ci", "-r", "-g", "-t", "-st", "-xt", "-xst", "-sg",
             "-xg", "-xsg", "-n", "-sn", "-xn", "-xsn", "-s", "TEST(", "IGNORE_TEST(", "-o", "-p", "-k", "-pok"]
 TIMES = [0, 1, 1 << 32, (1 << 32) + 5, 0xfffffffff, 12345]
@@ -97,6 +106,92 @@ def doc_scenario(rng):
     opts, argv = [], [rng.choice([b"prog", b"", b"./tests", b"-v"])]
     for _ in range(k):
         o, att, sep = gen_opt(rng)
+        opts.append(o)
+        argv += att if rng.random() < 0.5 else sep
+    return line_clean(rng.choice(TIMES) if rng.random() < 0.7 else rng.getrandbits(40), argv, opts)
+
+
+# ------------------------------------------------------------------ what the runner does with the configuration
+APPLY_IDENTS = [b"grp", b"name", b"Group", b"Test", b"a", b"b", b"x", b"y", b"z", b"ign", b"ig", b"TestIgn", b"other", b"g", b"n", b"e", b"G", b"T",
+                b"g1", b"t1", b"myname", b"aab", b"oop", b"nomatch"]
+
+
+def flag(f):
+    return (f, [FLAG_TEXT[f].encode()], [FLAG_TEXT[f].encode()])
+
+
+def rep_opt(rng, lo=1, hi=6):
+    if rng.random() < 0.2:
+        return (":r ~", [b"-r"], [b"-r"])
+    d = str(rng.choice([lo, 2, 2, 3, 3, 4, 5, hi, rng.randrange(lo, hi + 1)])).encode()
+    if rng.random() < 0.1:
+        d = b"0" + d
+    return (":r " + tb(d), [b"-r" + d], [b"-r", d])
+
+
+def apply_opt(rng):
+    c = rng.random()
+    ident = lambda: rng.choice(APPLY_IDENTS)
+    if c < 0.42:
+        return flag(rng.choice([":v", ":v", ":vv", ":vv", ":c", ":b", ":b", ":b", ":ri", ":ri", ":p", ":p", ":f", ":e", ":ci"]))
+    if c < 0.47:
+        return flag(rng.choice([":lg", ":ln", ":ll"]))
+    if c < 0.60:
+        return rep_opt(rng, 1, 7 if rng.random() < 0.15 else 6)
+    if c < 0.68:
+        if rng.random() < 0.4:
+            return (":s ~", [b"-s"], [b"-s"])
+        d = str(rng.choice([1, 2, 7, 99, 4294967295 % 10 ** 9, rng.randrange(1, 1000)])).encode()
+        return (":s " + tb(d), [b"-s" + d], [b"-s", d])
+    if c < 0.76:
+        k = rng.randrange(4)
+        v = ident()
+        return (":g %x %s" % (k, tb(v)), [PRE_G[k].encode() + v], [PRE_G[k].encode(), v])
+    if c < 0.83:
+        k = rng.randrange(4)
+        v = ident()
+        return (":n %x %s" % (k, tb(v)), [PRE_N[k].encode() + v], [PRE_N[k].encode(), v])
+    if c < 0.87:
+        k = rng.randrange(4)
+        g, n = ident(), ident()
+        return (":t %x %s %s" % (k, tb(g), tb(n)), [PRE_T[k].encode() + g + b"." + n], [PRE_T[k].encode(), g + b"." + n])
+    if c < 0.90:
+        ig = rng.randrange(2)
+        g, n = rng.choice([(b"grp", b"ign"), (b"x", b"z"), (b"grp", b"name"), (b"Group", b"TestIgn"), (b"ig", b"name"), (b"a", b"b")])
+        a = (b"IGNORE_TEST(" if ig else b"TEST(") + g + b", " + n + b")"
+        return (":T %x %s %s" % (ig, tb(g), tb(n)), [a], [a])
+    if c < 0.96:
+        o = rng.randrange(4)
+        return (":o %x" % o, [b"-o" + OUTS[o].encode()], [b"-o", OUTS[o].encode()])
+    v = rng.choice([b"pkg", b"p", b"a.b", b"x y"])
+    return (":k " + tb(v), [b"-k" + v], [b"-k", v])
+
+
+def apply_scenario(rng):
+    picks = [apply_opt(rng) for _ in range(rng.choice([0, 1, 1, 2, 2, 3, 3, 4, 5, 6, 8]))]
+    c = rng.random()
+    if c < 0.25:      # -v together with -vv: any order, any multiplicity, other options in between
+        picks += [flag(":v")] * rng.choice([1, 1, 2, 3]) + [flag(":vv")] * rng.choice([1, 1, 2, 3])
+    elif c < 0.5:     # -b with a repeat count of at least 2
+        picks += [flag(":b")] * rng.choice([1, 1, 1, 2, 3]) + [rep_opt(rng, 2, 6)]
+    elif c < 0.58:    # a list mode with options that would otherwise act
+        picks += [flag(rng.choice([":lg", ":ln", ":ll"])), rng.choice([flag(":b"), flag(":v"), rep_opt(rng, 2, 4), flag(":ri")])]
+    elif c < 0.68:    # ignored probes selected, with and without -ri, repeated
+        picks += [rng.choice([(":g 0 " + tb(b"ig"), [b"-gig"], [b"-g", b"ig"]), (":n 0 " + tb(b"ign"), [b"-nign"], [b"-n", b"ign"]),
+                              (":g 1 " + tb(b"x"), [b"-sgx"], [b"-sg", b"x"]), (":n 2 " + tb(b"name"), [b"-xnname"], [b"-xn", b"name"])])]
+        picks += [flag(":ri")] * rng.choice([0, 1, 2]) + ([rep_opt(rng, 2, 3)] if rng.random() < 0.5 else [])
+    elif c < 0.76:    # separate process, repeated
+        picks += [flag(":p")] * rng.choice([1, 2]) + ([rep_opt(rng, 2, 4)] if rng.random() < 0.6 else [])
+    elif c < 0.86:    # output kinds with / without verbosity and a package name
+        o = rng.randrange(4)
+        picks += [(":o %x" % o, [b"-o" + OUTS[o].encode()], [b"-o", OUTS[o].encode()])]
+        picks += rng.choice([[], [flag(":v")], [flag(":vv")], [flag(":c")], [(":k " + tb(b"pkg"), [b"-kpkg"], [b"-k", b"pkg"])], [flag(":vv"), flag(":c"), (":k " + tb(b"pk"), [b"-kpk"], [b"-k", b"pk"])]])
+    elif c < 0.94:    # shuffling with a repeat count, with and without -b
+        d = str(rng.choice([1, 3, 7, 12345])).encode()
+        picks += [rng.choice([(":s ~", [b"-s"], [b"-s"]), (":s " + tb(d), [b"-s" + d], [b"-s", d])]), rep_opt(rng, 1, 4)] + ([flag(":b")] if rng.random() < 0.4 else [])
+    rng.shuffle(picks)
+    opts, argv = [], [b"prog"]
+    for o, att, sep in picks:
         opts.append(o)
         argv += att if rng.random() < 0.5 else sep
     return line_clean(rng.choice(TIMES) if rng.random() < 0.7 else rng.getrandbits(40), argv, opts)
@@ -228,6 +323,8 @@ def generate(tier, rng):
         out.append(doc_scenario(rng))
     for _ in range(n):
         out.append(safety_scenario(rng))
+    for _ in range(n if tier == "quick" else n // 2):
+        out.append(apply_scenario(rng))
     return out
 
 
@@ -248,6 +345,21 @@ def classify(s):
     lab = ["ac:%d" % min(len(argv), 12)]
     nopts = int(rest[0], 16) if rest else 0
     lab.append("documented-options:%d" % nopts if nopts else "unannotated")
+    if nopts:
+        heads = [o[0] for o in split_opts(rest[1:])]
+        reps = [o for o in split_opts(rest[1:]) if o[0] == ":r"]
+        many = bool(reps) and (reps[-1][1] == "~" or int(unb(reps[-1][1])) >= 2)
+        if ":h" not in heads:
+            if ":v" in heads and ":vv" in heads:
+                lab.append("apply:-v with -vv (%s last)" % ("-v" if [h for h in heads if h in (":v", ":vv")][-1] == ":v" else "-vv"))
+            if ":b" in heads and many:
+                lab.append("apply:-b repeated")
+            if many:
+                lab.append("apply:repeat>=2")
+            for h, name in ((":lg", "list"), (":ln", "list"), (":ll", "list"), (":s", "shuffle"), (":p", "separate process"), (":ri", "run ignored"),
+                            (":c", "colour"), (":o", "output kind"), (":k", "package")):
+                if h in heads:
+                    lab.append("apply:" + name)
     for a in argv[1:]:
         for lit in ("TEST(", "IGNORE_TEST(", "-r", "-s", "-t", "-st", "-xt", "-xst", "-o", "-k", "-p", "-h"):
             if a.startswith(lit.encode()):
@@ -260,8 +372,67 @@ def signature(s, o):
     tm, argv, rest = parse_line(s)
     if o.startswith("!"):
         return "crash " + o[:70]
+    asp = applied_aspect(o)
+    if asp:
+        return "runner applies: " + asp
     heads = sorted(set((a[:2] if a[:1] == b"-" else a[:5]).decode("latin1") for a in argv[1:]))
     return ("accepted" if o.startswith(":ok") else "rejected") + " with " + ",".join(heads)[:80]
+
+
+def applied_aspect(o):
+    """only for grouping failures into signatures (the judge is the extracted spec): which part of the applied observation looks off"""
+    t = o.split()
+    if not o.startswith(":ok") or ":app" not in t:
+        return None
+    try:
+        v, vv, c, p, lg, ln, ll, ri, b = [x != "0" for x in t[1:10]]
+        shuf, rep, kind = t[12] != "0", int(t[14], 16), t[15]
+        i = t.index(":app") + 1
+        nouts = int(t[i], 16)
+        outs = [t[i + 1 + 4 * k:i + 5 + 4 * k] for k in range(nouts)]
+        i += 1 + 4 * nouts + 1
+        nreps = int(t[i], 16)
+        i += 1
+        reps = []
+        for _ in range(nreps):
+            r = {"level": t[i], "colour": t[i + 1]}
+            i += 2
+            for key in ("seeds", "started", "ran", "sep"):
+                n = int(t[i], 16)
+                r[key] = t[i + 1:i + 1 + n]
+                i += 1 + n
+            reps.append(r)
+        level = "2" if vv else "1" if v else "0"
+        if not outs or outs[0][0] != kind:
+            return "output kind"
+        if any(x[2] != level for x in outs) or any(r["level"] != level for r in reps):
+            return "verbosity level"
+        if any((x[3] != "0") != c for x in outs) or any((r["colour"] != "0") != c for r in reps):
+            return "colour"
+        if lg or ln or ll:
+            return "list mode runs tests" if reps else "listing"
+        if nreps != rep:
+            return "number of repetitions"
+        if any(bool(r["seeds"]) != shuf for r in reps):
+            return "shuffle seed"
+        if any(r["sep"] != (r["started"] if p else []) for r in reps):
+            return "separate process"
+        if any(r["started"] != reps[0]["started"] for r in reps) and not shuf:
+            return "order differs between repetitions"
+        seed = int(t[13], 16) % (1 << 32)
+        if any(int(x, 16) != seed for r in reps for x in r["seeds"]):
+            return "shuffle seed"
+        ign = ("2", "5", "9", "e")
+        if any(r["ran"] != [x for x in r["started"] if ri or x not in ign] for r in reps):
+            return "ignored tests"
+        if not shuf:
+            for r in reps:
+                ids = [int(x, 16) for x in r["started"]]
+                if ids != sorted(ids, reverse=b):
+                    return "order"
+        return None
+    except (ValueError, IndexError):
+        return "unreadable"
 
 
 def shrink(s):
@@ -285,6 +456,33 @@ def shrink(s):
                 for o in keep:
                     av += spell(o, form)
                 yield line_clean(tm, av, [" ".join(o) for o in keep])
+
+
+def project(o, flavour):
+    """the order in which a shuffled repetition runs its tests is not part of the observation compared between model and code
+    (the model's shuffle is the identity; spec asks for a permutation of the selected tests): ids of a repetition that called srand are sorted"""
+    t = o.split()
+    if ":app" not in t:
+        return o
+    try:
+        k = t.index(":app")
+        i = k + 1
+        nouts = int(t[i], 16)
+        i += 1 + 4 * nouts + 1
+        nreps = int(t[i], 16)
+        i += 1
+        for _ in range(nreps):
+            i += 2
+            nseeds = int(t[i], 16)
+            i += 1 + nseeds
+            for _l in range(3):
+                n = int(t[i], 16)
+                if nseeds:
+                    t[i + 1:i + 1 + n] = sorted(t[i + 1:i + 1 + n], key=lambda x: int(x, 16))
+                i += 1 + n
+        return " ".join(t)
+    except (ValueError, IndexError):
+        return o
 
 
 def split_opts(toks):
@@ -338,15 +536,25 @@ LEVEL_TEXT = ("Machine-checked (Coq) theorems over an executable model of Comman
               "for every sequence of documented options, every attached/separated spelling, values of the stated shapes, parse = documented "
               "configuration (-h anywhere: help); (4) reject => usage/help printed and runAllTests not called (the deciding lines of "
               "CommandLineTestRunner); (5) filters: each kind accepts exactly substring/equal/negations, and a vector that is one "
-              "test-selection option selects exactly what its sentence in help() -- re-read from the source -- names. Tied to the code by a "
-              "differential run on exact-size heap argv under ASan/UBSan with the extracted spec as judge.")
+              "test-selection option selects exactly what its sentence in help() -- re-read from the source -- names; (6) the runner applies "
+              "the configuration: a mirror of parseArguments' accepted branch, initializeTestRun and runAllTests over an 18-test probe registry "
+              "(config -> outputs created with level/colour, listing text, list of repetitions each with level, colour, srand seeds, tests "
+              "started / run / switched to separate-process mode) is proved, for EVERY configuration and for every spelling of every documented "
+              "option sequence, to be the documented meaning: highest verbosity asked for wins in any order/multiplicity, -b reverses every "
+              "repetition, repeat count n gives n alike repetitions, ignored tests run exactly under -ri, -p reaches every started test, the "
+              "output is of the configured kind with the package name, list modes print their listing and run nothing, srand gets the configured "
+              "seed.  Tied to the code by a "
+              "differential run on exact-size heap argv under ASan/UBSan with the extracted spec as judge; every accepted vector (repeat count "
+              "<= 6) is also run through the real CommandLineTestRunner with recording outputs, recording probe tests and a logging srand.")
 LEVEL_NOTE = ("Partial for memory safety: the Coq statement is about the bounds-checked model (Oob/NoFuel/Ub are results it can return and "
               "provably does not); real heap accesses are seen only by the sanitizers on the generated vectors. Trusted: Coq kernel, "
               "extraction, harness, generator, tools/gen/C12.py (dispatch chain, output names, help sentences by anchored regexes). "
               "Excluded by precondition: NUL inside an argument, arguments of 4 GiB or more, AtoI on more than 9 digits (atoi's contract). "
               "Modelled not verified: the C++ itself; the plugin is the harness's (-pok...); the help text gives no rule for combining "
               "several selection options (modelled as the code does: OR inside the group list and inside the name list, AND between "
-              "them -- two -xg therefore do not both exclude); the runner beyond 'rejected => usage/help printed, nothing runs' belongs "
-              "to C01/C02.")
+              "them -- two -xg therefore do not both exclude); of the runner: the order after a shuffle (the model's shuffle is the identity, "
+              "the oracle asks for a permutation of the selected tests and the configured seed at srand; C02 models the permutation), repeat "
+              "counts above 6 (not run), -f/-e/-ci (parsed, not observed at the runner), what the real Console/JUnit/TeamCity outputs print "
+              "(C16/C20), failure counting and exit value (C01).")
 TECHNIQUE = "Coq proof over hand-written executable models (list level + bounds-checked buffer level) driven by source-extracted dispatch/help tables + differential check under sanitizers"
 READY = True
